@@ -107,6 +107,21 @@ PROPS = {
         real_vs_stub=L_REAL + "; restore target is a real directory on tmpfs",
         assumptions=SIM_ASSUME,
     ),
+    "C51": dict(
+        pkg="internal/selfupdate", test="TestVerifC51", level="fault_enumeration", quick_s=30, thorough_s=600,
+        text="the real DownloadLatestStableRelease against an in-memory GitHub installed as http.DefaultClient's transport: release JSON, SHA256SUMS, its "
+             "detached signature and the bzip2 archive, with zero to two generated tamperings out of: archive bit flip, truncation or swap with "
+             "another asset, signature by a foreign key, missing or garbage signature, checksum line adjusted after signing, signed but stale "
+             "hash, two entries for the name (first wrong), malformed non-hex entry before the valid one, entry for a different path ending in "
+             "the name, HTTP errors, connections broken mid-body, slow API against the timeout on the simulated clock; the binary changes only if "
+             "the served checksum file is exactly what the harness key signed and the first entry for the exact file name matches the served "
+             "archive, and then equals the decompressed archive; otherwise it is byte-identical to before; success is never reported without an install",
+        note="the embedded release key is replaced by a key pair generated in the harness, so the real release key itself is not exercised",
+        design_ref="3 / C51",
+        rule="one run = 0-2 tamperings/transport faults; distinct = distinct (case, event-log hash)",
+        real_vs_stub="real: selfupdate (GitHub client code, GPGVerify with x/crypto/openpgp, findHash, extractToFile); simulated: HTTP transport, clock",
+        assumptions=SIM_ASSUME,
+    ),
     "C55": dict(
         pkg="cmd/restic", test="TestVerifC55", level="exploration", quick_s=45, thorough_s=600,
         text="the real runBackup over the simulated source file system in which generated entries fail to open, fail with an I/O error after a "
